@@ -142,6 +142,36 @@ Theorem C16_used_by_inserts : forall (name : str) (ls ls' : list str),
 Proof. exact used_by_inserts. Qed.
 Print Assumptions C16_used_by_inserts.
 
+(* ---------- round 5: settling over the RE-LOADED file ----------
+   load_file splits the bytes at "\n" (a "\r" stays in Line.Text), save_file writes the lines
+   back, every inserted line with "\n" as autofix.go does.  For ALL byte strings on disk -- LF,
+   CR LF, mixed, unterminated last line --: fix, save, load again: the check leaves the file alone *)
+Theorem C16_load_save : forall (ls : list str) (t : bool), forallb nl_free ls = true -> saveable ls t ->
+  load_file (save_file ls t) = (ls, match ls with [] => true | _ => t end).
+Proof. exact load_save. Qed.
+Print Assumptions C16_load_save.
+Theorem C16_load_saveable : forall (bs : str) (ls : list str) (t : bool), load_file bs = (ls, t) ->
+  forallb nl_free ls = true /\ saveable ls t.
+Proof. exact load_nl_free. Qed.
+Print Assumptions C16_load_saveable.
+Theorem C16_cvsid_settles_after_reload : forall (k : idkind) (bs : str) (ls : list str) (t : bool) (ls' : list str) (t' : bool),
+  load_file bs = (ls, t) -> check_cvsid k ls = Some ls' -> saveable ls' t' ->
+  check_cvsid k (fst (load_file (save_file ls' t'))) = Some (fst (load_file (save_file ls' t'))).
+Proof. exact cvsid_settles_after_reload. Qed.
+Print Assumptions C16_cvsid_settles_after_reload.
+Theorem C16_used_by_settles_after_reload : forall (name bs : str) (ls : list str) (t : bool) (ls' : list str) (t' : bool),
+  name_ok name -> nl_free name = true ->
+  load_file bs = (ls, t) -> used_by name ls = Some ls' -> saveable ls' t' ->
+  used_by name (fst (load_file (save_file ls' t'))) = Some (fst (load_file (save_file ls' t'))).
+Proof. exact used_by_settles_after_reload. Qed.
+Print Assumptions C16_used_by_settles_after_reload.
+(* a CR LF file: the texts end in "\r"; the inserted id does not, and is recognised again *)
+Example C16_crlf_example :
+  load_file [36;78;101;116;66;83;68;36;13;10;120;13;10] = ([[36;78;101;116;66;83;68;36;13]; [120;13]], true)
+  /\ check_cvsid IdPlain [[36;78;101;116;66;83;68;36;13]; [120;13]]
+     = Some [[36;78;101;116;66;83;68;36]; [36;78;101;116;66;83;68;36;13]; [120;13]].
+Proof. split; vm_compute; reflexivity. Qed.
+
 (* non-vacuity *)
 Example C16_line_settles_examples :
   line_settles [109;97;110;47;109;97;110;49;47;97;46;49;46;103;122] = true                       (* man/man1/a.1.gz *)
